@@ -249,6 +249,8 @@ def train(tier: str, prop: str) -> list[dict]:
         c("PPO", "gym_peer", 1, 6, "rec1", [24]),      # Gymnasium peer with hidden RNG state behind GymToLeraxEnv
         c("DQN", "gym_peer", 1, 3, "rec1", [15], starts=4),
         c("PPO", "gym_peer", 1, 6, "video", [24], video_interval=1),   # the recorder thread must never drive the peer that is being trained on
+        # non-default documented flags, trained AFTER a default instance in the same process and compared with a fresh interpreter
+        c("PPO", "sim_discrete", 2, 4, "rec1", [17], p_fresh=0.5, prior_history=True, algo_kwargs={"normalize_advantages": False, "clip_value_loss": True}),
         c("PPO", "sim_dict", 2, 4, "rec1", [17], p_fresh=0.5),    # Dict observations with many string keys, often re-run in a fresh interpreter
         c("DQN", "sim_dict", 1, 3, "list", [13], starts=3, p_fresh=0.5),
     ]
